@@ -353,22 +353,20 @@ def run(tier, replay=None):
 
     jq = ('-Xmx2g', '-XX:ParallelGCThreads=2') + (('-XX:TieredStopAtLevel=1',) if quick else ())
 
+    to = 900 if quick else 3000
+
     # 1. exhaustive model checks + deviation generators, in parallel JVMs
     def do_mc(c):
-        return ('mc', c, tlc.model_check(SPEC, 'NodeRpc', 'MC_NodeRpc_%s%s.cfg' % (c, sfx), coverage=True, workers=4, jvm_opts=jq))
+        return ('mc', c, tlc.model_check(SPEC, 'NodeRpc', 'MC_NodeRpc_%s%s.cfg' % (c, sfx), coverage=True, workers=4, jvm_opts=jq, timeout=to))
 
     def do_dev(d):
-        return ('dev', d, tlc.run_tlc(SPEC, 'NodeRpc', 'DEV_NodeRpc_%s.cfg' % d, workers=2, jvm_opts=jq))
+        return ('dev', d, tlc.run_tlc(SPEC, 'NodeRpc', 'DEV_NodeRpc_%s.cfg' % d, workers=2, jvm_opts=jq, timeout=to))
 
-    jobs = [(do_mc, c) for c in MC_CFGS] + [(do_dev, d) for d in DEVS]
-    with ThreadPoolExecutor(max_workers=5) as ex:
-        results = list(ex.map(lambda j: j[0](j[1]), jobs))
-    tick('tlc jobs done: ' + ', '.join('%s:%s=%.0fs' % (k, c, r.wall_s) for k, c, r in results))
-    mcs = {c: r for k, c, r in results if k == 'mc'}
-    devs = {c: r for k, c, r in results if k == 'dev'}
-    for act in ACTIONS:
-        if not any(act in r.coverage and r.coverage[act][1] > 0 for r in mcs.values()):
-            raise tlc.MachineryError('vacuous model: action %s never taken in any configuration' % act)
+    pool = ThreadPoolExecutor(max_workers=8)
+    dev_futs = [pool.submit(do_dev, d) for d in DEVS]        # short: breadth-first search stops at the violation
+    mc_futs = [pool.submit(do_mc, c) for c in MC_CFGS]
+    devs = {d: r for _, d, r in (f.result() for f in dev_futs)}
+    tick('deviation runs done')
 
     # 1b. each deviation must violate C19 in the model (teeth); its counterexample
     # history is replayed on the real code: the deviations the tree under test
@@ -406,14 +404,20 @@ def run(tier, replay=None):
                 text = f.read()
             with open(dst, 'w') as f:
                 f.write(text.replace('INVARIANT Conforms\n', ''))
-            res, states = tlc.dump_states(SPEC, 'NodeRpc', dst, workers=4, jvm_opts=jq)
+            res, states = tlc.dump_states(SPEC, 'NodeRpc', dst, workers=4, jvm_opts=jq, timeout=to)
             return c, (res, _maximal(states))
 
-        with ThreadPoolExecutor(max_workers=5) as ex:
-            hists = dict(ex.map(do_hist, hist_cfgs))
+        hist_futs = [pool.submit(do_hist, c) for c in hist_cfgs]
+        hists = dict(f.result() for f in hist_futs)
+        mcs = {c: r for _, c, r in (f.result() for f in mc_futs)}
     finally:
         import shutil
+        pool.shutdown(wait=True)
         shutil.rmtree(wd, ignore_errors=True)
+    for act in ACTIONS:
+        if not any(act in r.coverage and r.coverage[act][1] > 0 for r in mcs.values()):
+            raise tlc.MachineryError('vacuous model: action %s never taken in any configuration' % act)
+    tick('model checks done: ' + ', '.join('%s=%d states/%.0fs' % (c, r.distinct, r.wall_s) for c, r in mcs.items()))
     tick('history dumps done: ' + ', '.join('%s=%d states/%d maximal' % (c, h[0].distinct, len(h[1])) for c, h in hists.items()))
 
     items = [(meta, w) for _, meta, w in cex]        # (meta, world)
@@ -548,8 +552,8 @@ def run(tier, replay=None):
         'corrupted_traces_rejected': len(muts),
         'rule': 'cases = (firewall configuration, concrete script, hostile variant, seed); from every maximal environment '
                 'history TLC dumps for NodeRpc.tla in five bounded configurations (sampled down to %d per configuration in the '
-                'quick tier), the hostile grammar enumerated (class x metadata key x value variant x direction), and seeded '
-                'random scenarios with byte-level cuts; non-trivial = an event was dispatched, a hostile packet sent or bytes '
+                'quick tier), the hostile grammar enumerated (class x metadata key x value variant x direction), scenarios '
+                'with two connections in one process (every completion order), and seeded random scenarios with byte-level cuts; non-trivial = an event was dispatched, a hostile packet sent or bytes '
                 'were read; distinct by hash of the case' % cap,
         'exhaustive': False,
     }, assumptions=[
